@@ -188,6 +188,22 @@ class CSSRuleRules(CSSRule):
         "All Rules in this style sheet, a :class:`~cssutils.css.CSSRuleList`.",
     )
 
+    def _getValid(self):
+        """Check the declarations of this rule (@page) and each contained rule."""
+        style = getattr(self, 'style', None)
+        if style is not None and not style.valid:
+            return False
+        for rule in self.cssRules:
+            # Not all rules can be checked for validity
+            if hasattr(rule, 'valid') and not rule.valid:
+                return False
+        return True
+
+    valid = property(
+        _getValid,
+        doc='``True`` if the own declarations (if any) and all contained rules are valid.',
+    )
+
     def deleteRule(self, index):
         """
         Delete the rule at `index` from rules ``cssRules``.
